@@ -51,8 +51,8 @@ def shards(tier, seed):
 def gen_seg(rng, i):
     if rng.random() < 0.5:
         return ("lit", rng.choice(R.LITS))
-    pre = rng.choice(["", "", "", "p"])
-    suf = rng.choice(["", "", "", "s"])
+    pre = rng.choice(["", "", "", "p", "p", "v.", "(", "a+"])
+    suf = rng.choice(["", "", "", "s", "s", ".j", "+", ".0", ")", "|b", "?"])  # literal text with characters a pattern language gives meaning to
     return ("var", pre, rng.choice(R.CONVS), suf, f"v{i}")
 
 
@@ -108,6 +108,11 @@ MUTS = [
     lambda rng, s: s[: len(s) // 2] + "/" + s[len(s) // 2 :],
     lambda rng, s: s.rstrip("/") + "//",
     lambda rng, s: s + "//",
+    # a path that differs from a hit exactly at a punctuation character of a literal (or lacks / doubles it)
+    lambda rng, s: re.sub(r"[.+()|?]", "x", s, count=1),
+    lambda rng, s: re.sub(r"[.+()|?]", "", s, count=1),
+    lambda rng, s: re.sub(r"([.+()|?])", r"\g<1>\g<1>", s, count=1),
+    lambda rng, s: re.sub(r"(\w)([.+()|?])", r"\g<1>\g<1>\g<2>", s, count=1),
 ]
 POOL = ["a", "b", "ab", "x1", "12", "zz", "1", "007", "1.5", "12.0", "bc", "pa", "p12s", "12s", "pzz", "123", "abc", "q", "", "07"]
 
